@@ -77,7 +77,7 @@ theorem checked_flow_slide_terminates (p : Prog) (hck : slideAcyclic p = true) (
   slide_terminates p (slideAcyclic_sound p hck) h hc o k
 
 /-- non-vacuity: `while $c: (match …)`-shaped flow — label, goto-out, WAIT, goto-back, label — is accepted -/
-def loopWithWait : Prog := [.step false, .goto (some 4), .wait, .goto (some 0), .step false]
+def loopWithWait : Prog := [.step false, .goto (some 4), .wait false, .goto (some 0), .step false]
 example : slideAcyclic loopWithWait = true := by decide
 example : CatchOk loopWithWait { pos := 0, cstack := [] } := by intro t ht; simp at ht
 
@@ -159,9 +159,9 @@ theorem restart_guard_fail_repaired (progs : Nat → Prog) (s : St) (fuid huid :
 /-- non-vacuity of the hypotheses of the four theorems above: a concrete state with an activated instance whose first
     statement raises / whose flow is empty (witness, by evaluation). -/
 def demoProgs : Nat → Prog
-  | 1 => [.wait, .step true, .wait]     -- flow `a`:  (match StartFlow) ; $v = "t" + 3 ; match Ev()
-  | 2 => [.wait, .step false]           -- flow `e`:  (match StartFlow) ; $v = 1     (finishes immediately)
-  | _ => [.wait]
+  | 1 => [.wait false, .step true, .wait false]     -- flow `a`:  (match StartFlow) ; $v = "t" + 3 ; match Ev()
+  | 2 => [.wait false, .step false]           -- flow `e`:  (match StartFlow) ; $v = 1     (finishes immediately)
+  | _ => [.wait false]
 def demoState : St :=
   { insts := [
       { uid := 10, flowId := 0, status := .started, activated := 0, newInstanceStarted := false, parent := none, children := [11, 12, 13],
